@@ -387,6 +387,12 @@ class EscapeAnalysis:
                 k = len(st.targets[0].elts)
                 if not self._len_guard(f, st, st.value.id, k):
                     self._emit(f, "ValueError", st, f"unpacking {st.value.id} (a .split() result) into {k} names without a dominating length test", handlers, out, in_gen)
+        if isinstance(st, ast.Assign) and len(st.targets) == 1 and isinstance(st.targets[0], (ast.Tuple, ast.List)) and isinstance(st.value, ast.Call) \
+                and isinstance(st.value.func, ast.Attribute) and st.value.func.attr in ("split", "rsplit", "splitlines") and not any(isinstance(e, ast.Starred) for e in st.targets[0].elts):
+            # direct unpack of a split result: the number of pieces depends on the data (partition() always gives three, split() does not)
+            self.sites_examined += 1
+            k = len(st.targets[0].elts)
+            self._emit(f, "ValueError", st, f"unpacking `{norm(st.value)[:60]}` into {k} names: the number of pieces depends on the input", handlers, out, in_gen)
         for ch in ast.iter_child_nodes(st):
             if isinstance(ch, ast.expr):
                 self._expr(f, ch, handlers, out, in_gen)
